@@ -146,6 +146,10 @@ def cases(tier, seed):
     for xg in scope.extreme_geometries(3):
         out.append({"kind": "layout", "geo": xg, "la": [L_id[5], None], "lb": [L_id[7], L_id[-1]], "seed": seed, "sels": [0, 2], "forms": False})
     out.append({"kind": "far", "seed": seed})
+    # seven levels towards the far corner, twelve fields on each side: FAB header lines longer than 100 bytes
+    L2 = scope.layouts(2, 'idrev')
+    out.append({"kind": "layout", "geo": geo, "la": [None, L2[-1], None, L2[1], None, None, L2[2]], "lb": [L2[1], None, L2[-1], L2[2], None, L2[-1], None],
+                "seed": seed, "sels": [0, 2], "forms": False, "deep": True, "w": 20})
     return out
 
 
@@ -186,6 +190,11 @@ def run_case(case, workdir):
             rec.fail("mismatch_wrote", sub, "events %r" % ev[:3])
         return rec.result()
     m = mesh()
+    fa_, fb_ = FA, FB
+    if case.get("deep"):
+        m = dict(scope.deep_corner_mesh())
+        fa_ = FA + ["pa%d" % i for i in range(12 - len(FA))]
+        fb_ = FB + ["pb%d" % i for i in range(12 - len(FB))]
     m.update(case["geo"])
     if case["kind"] == "mismatch":
         da = dict(m, fields=FA, seed=seed)
@@ -224,8 +233,8 @@ def run_case(case, workdir):
         return rec.result()
     if case.get("four"):
         m["levels"] = [m["levels"][0], m["levels"][1] + [[[0, 0, 0], [1, 1, 1]]]]
-    da = dict(m, fields=FA, layout=case["la"], seed=seed)
-    db = dict(m, fields=FB, layout=case["lb"], seed=seed + 1, payload="signed")
+    da = dict(m, fields=fa_, layout=case["la"], seed=seed)
+    db = dict(m, fields=fb_, layout=case["lb"], seed=seed + 1, payload="signed")
     pa, ra = build(da, workdir, "pltA")
     pb, rb = build(db, workdir, "pltB")
     pina, pinb = ParsedPlot(pa), ParsedPlot(pb)
